@@ -53,7 +53,7 @@ static mut CALLED_B: bool = false;
 //  cloned out of a heap Vec, CBMC no longer folds its tag and explores the clone glue of every variant.
 //  The image side of the safe state is covered through IoInterface::write by the C07 locality harnesses.)
 
-// @verif prop=C08 kernel=K2 tiers=quick,thorough timeout=2400 unwind=1 stubbing=yes mem=16 loops=c08:6,apply_safe_state:4,write_outputs:6,Iterator:4,IterMut:4,resize:6,extend_with:6
+// @verif prop=C08 kernel=K2 tiers=quick,thorough timeout=2400 unwind=1 stubbing=yes mem=16 loops=c08:6,apply_safe_state:4,write_outputs:6,Iterator:4,IterMut:4,resize:6,extend_with:6,memcmp:6,compare_bytes:6
 // @verif what=apply_safe_state hands the output image to EVERY registered driver, also when an earlier driver fails, and reports the failure
 // @verif fns=runtime::io_subsystem::IoSubsystem::{apply_safe_state,add_driver}
 // @verif bound=4-byte output image with symbolic content; empty safe-state list; 2 recording drivers, the first of which fails or not (symbolic)
